@@ -7,7 +7,7 @@
 From Coq Require Import List NArith ZArith Bool Arith Lia.
 Import ListNotations.
 From Indi Require Import Base.Sx Buffer.Model Buffer.Props Buffer.Junk Buffer.Framing Buffer.Run Buffer.Concrete
-  Msg.Registry Msg.RegOk Msg.Equality Msg.Model Msg.Codec Xml.Lex Xml.Print Xml.RoundTrip Xml.Opener Generated.RegistryData.
+  Msg.Registry Msg.RegOk Msg.Equality Msg.Model Msg.Codec Xml.Lex Xml.Print Xml.RoundTrip Xml.Opener Xml.FirstTag Generated.RegistryData.
 Local Open Scope N_scope.
 
 (* ---------- the lexer is done exactly once: after the root has closed only blanks are accepted ---------- *)
@@ -431,6 +431,43 @@ Proof.
   - rewrite Hm. exact (opener_at_0 live_tags (c0 :: tr) rest Htag).
   - rewrite Hab. exact (ends_spec pre a Ha).
   - exact Hfit.
+Qed.
+
+(* the same with nothing said about the tag: a text that begins with '<' and anything but '?', is read as a
+   message and ends with '>' begins with a registered tag (Xml/FirstTag.v), hence is a spelling *)
+Lemma registered_root_tag t M : msg_from_xml live_registry t = Some M -> In (tree_tag t) live_tags.
+Proof.
+  intro Em. destruct (msg_from_xml_tag _ _ _ Em) as [c Fc].
+  assert (Hb : reg_ok_buffer live_registry = true) by (vm_compute; reflexivity).
+  unfold reg_ok_buffer in Hb. apply andb_prop in Hb as [Hb _]. apply (list_eqb_spec str_eqb str_eqb_spec) in Hb. rewrite Hb.
+  unfold find_mclass in Fc. pose proof (find_last_in _ _ _ Fc) as Hin. pose proof (find_last_pred _ _ _ Fc) as Hp. cbn in Hp.
+  apply str_eqb_spec in Hp. rewrite <- Hp. apply in_map. exact Hin.
+Qed.
+
+Lemma accepted_element_begins_with_a_registered_tag (m : str) (M : msg) c r :
+  concrete_parse m = PMsg M -> m = LT :: c :: r -> c <> 63%N ->
+  exists tag rest, In tag live_tags /\ m = LT :: tag ++ rest.
+Proof.
+  intros HP Hm Hc. apply N.eqb_neq in Hc.
+  assert (Hm' : m = 60%N :: c :: r) by (rewrite Hm; reflexivity).
+  unfold concrete_parse, Lex.parse in HP. rewrite Hm' in HP. rewrite (strip_decl_elem c r Hc) in HP.
+  destruct (status (Lex.lex (60%N :: c :: r))) eqn:St; [|cbn in HP; discriminate].
+  cbn [N.eqb] in HP.
+  destruct (build (rev (toks (Lex.lex (60%N :: c :: r)))) []) as [t|] eqn:Hb; [|discriminate].
+  destruct (msg_from_xml live_registry t) as [M'|] eqn:Em; [|discriminate].
+  destruct (document_begins_with_its_root_tag (c :: r) t St Hb) as [rest E].
+  exists (tree_tag t), rest. split; [exact (registered_root_tag t M' Em)|]. rewrite Hm', E. reflexivity.
+Qed.
+
+Theorem accepted_element_text_is_a_spelling thr (m : str) (M : msg) c r :
+  concrete_parse m = PMsg M -> m = LT :: c :: r -> c <> 63%N ->
+  nth (length m - 1) m 0%N = GT ->
+  (forall t, thr = Some t -> length m <= t) ->
+  spelling msg concrete_parse live_tags thr M m.
+Proof.
+  intros HP Hm Hc Hlast Hfit.
+  destruct (accepted_element_begins_with_a_registered_tag m M c r HP Hm Hc) as (tag & rest & Htag & E).
+  exact (accepted_text_is_a_spelling thr m M tag rest HP Htag E Hlast Hfit).
 Qed.
 
 (* a stream of such texts with junk between them *)
